@@ -27,6 +27,9 @@ LIST = {
     'cmd': {'required': True, 'cmd': CMD, 'cache': {'timeout': 2}},
     'both': {'required': True, 'users': USERS, 'cmd': CMD, 'cache': {'timeout': 2}},
     'open': {'required': False, 'users': USERS},
+    # credentials are required and nobody has any (an operator who emptied the user list to close a listener): nobody gets in
+    'locked': {'required': True},
+    'locked-empty': {'required': True, 'users': [], 'cmd': []},
 }
 ports = {k: free_port() for k in LIST}
 apiport = free_port()
@@ -46,7 +49,7 @@ def accepts(listener, cred):
     u, p = cred
     ok_users = (u, p) in ((b'u', b'p'), (b's4', b''))
     ok_cmd = (u, p) == (b'cu', b'cp')
-    return {'users': ok_users, 'cmd': ok_cmd, 'both': ok_users or ok_cmd}[listener]
+    return {'users': ok_users, 'cmd': ok_cmd, 'both': ok_users or ok_cmd, 'locked': False, 'locked-empty': False}[listener]
 
 CREDS = [(b'u', b'p'), (b'cu', b'cp'), (b'u', b'x'), (b'cu', b'p'), (b'nobody', b'p'), (b'', b''), (b'u' * 255, b'p'), (b'\xff\xfeu', b'p'), (b'u', b'')]
 METHODS = [0, 1, 2, 0x80, 0xff]
@@ -381,6 +384,6 @@ for o in list(tls_up.values()) + list(cecho.values()) + [echo]:
 if evals < 500 or len(distinct) < 20:
     machinery(f'vacuous: evals={evals} distinct={len(distinct)}')
 cov = {'evaluations': evals, 'distinct_nontrivial': len(distinct), 'transitions': evals, 'traces_validated_against_impl': evals,
-       'rule': 'real binary: (1) 4 listener auth configurations x all method-offer lists of length 0-3 over {0,1,2,0x80,0xff} (quick: length-3 lists with distinct methods) x 9 credential pairs x command {CONNECT, UDP ASSOCIATE for offers of length <= 2} + SOCKS4 ids; (2) listener {http,socks,quic} x client certificate policy {absent,optional,required} x presented {none,valid,foreign}; (3) connector {http,socks,quic} x upstream named by host name / address literal x insecure x upstream certificate {valid,foreign,wrongname}, each connector used first with all others at once, then in two sequential rounds (lenient before verifying) and once right after its lenient twin (session resumption across connectors); routed = success reply and echo round trip',
+       'rule': 'real binary: (1) 6 listener auth configurations (users, command, both, open, required with nobody listed) x all method-offer lists of length 0-3 over {0,1,2,0x80,0xff} (quick: length-3 lists with distinct methods) x 9 credential pairs x command {CONNECT, UDP ASSOCIATE for offers of length <= 2} + SOCKS4 ids; (2) listener {http,socks,quic} x client certificate policy {absent,optional,required} x presented {none,valid,foreign}; (3) connector {http,socks,quic} x upstream named by host name / address literal x insecure x upstream certificate {valid,foreign,wrongname}, each connector used first with all others at once, then in two sequential rounds (lenient before verifying) and once right after its lenient twin (session resumption across connectors); routed = success reply and echo round trip',
        'socks_sessions': len(cases), 'tls_listener_cells': len(tls_cases), 'tls_connector_cells': len(cells), 'schedule_control': 'kernel', 'samples': samples}
 sys.exit(chk.finish('model_checking', cov, ['E4 part: certificates minted by bin/mkcerts with openssl; the QUIC listener is reached through a front redproxy hop acting as QUIC client']))
